@@ -131,7 +131,17 @@ impl<T: Send + Sync> AtomicIter<T> for ConIterOfVec<T> {
     }
 
     fn early_exit(&self) {
-        self.counter().store(self.vec_len)
+        // the positions from the previous value of the counter on have not been reserved by any pull and, from now on,
+        // never will be: their elements can only be dropped here
+        let skipped_from = self.counter().swap(self.vec_len).min(self.vec_len);
+        unsafe {
+            let vec = &mut *self.vec.get();
+            let skipped = std::ptr::slice_from_raw_parts_mut(
+                vec.as_mut_ptr().add(skipped_from),
+                self.vec_len - skipped_from,
+            );
+            std::ptr::drop_in_place(skipped);
+        }
     }
 }
 
